@@ -438,13 +438,15 @@ class Pool:
     """Runs jobs on N worker processes; restarts a worker that dies or exceeds the per-job timeout
     (recording a Timeout event for the compilation in flight).  Returns the list of stream files."""
 
-    def __init__(self, scratch_dir, nworkers, *, job_timeout=120, hashseed="0", pristine=False, name="w"):
+    def __init__(self, scratch_dir, nworkers, *, job_timeout=120, hashseed="0", pristine=False, name="w",
+                 compile_timeout=None):
         self.dir = scratch_dir
         self.n = nworkers
         self.job_timeout = job_timeout
         self.hashseed = hashseed
         self.pristine = pristine
         self.name = name
+        self.compile_timeout = compile_timeout
         self.streams = []
         self.timeouts = []
         self.crashes = []
@@ -456,6 +458,8 @@ class Pool:
         env["PYTHONHASHSEED"] = str(self.hashseed)
         env["PYTHONDONTWRITEBYTECODE"] = "1"
         env["EMBOSS_REPO"] = REPO
+        if self.compile_timeout:
+            env["VERIF_COMPILE_TIMEOUT"] = str(self.compile_timeout)
         cmd = [sys.executable, "-m", "harness.pipe_worker", out] + (["--pristine"] if self.pristine else [])
         p = subprocess.Popen(cmd, cwd=VERIF, env=env, stdin=subprocess.PIPE, stdout=subprocess.PIPE,
                              stderr=open(out + ".stderr", "w"), text=True, bufsize=1)
